@@ -67,4 +67,161 @@ theorem packBits_rcode_mod (h : MsgHdr) (r : Nat) : packBits { h with rcode := r
   unfold packBits
   simp
 
+/-! ### the other direction -/
+
+theorem testBit_mask (X : BitVec 16) (k : Nat) (hk : k < 16) :
+    (X &&& BitVec.twoPow 16 k != 0) = X.getLsbD k := by
+  cases hb : X.getLsbD k with
+  | true =>
+    have : X &&& BitVec.twoPow 16 k ≠ 0 := by
+      intro h
+      have h2 := congrArg (fun v => v.getLsbD k) h
+      simp only [BitVec.getLsbD_and, BitVec.getLsbD_twoPow, BitVec.getLsbD_zero, hb] at h2
+      simp [hk] at h2
+    simpa using this
+  | false =>
+    have : X &&& BitVec.twoPow 16 k = 0 := by
+      apply BitVec.eq_of_getLsbD_eq
+      intro i hi
+      simp only [BitVec.getLsbD_and, BitVec.getLsbD_twoPow, BitVec.getLsbD_zero]
+      by_cases hik : k = i
+      · subst hik; simp [hb]
+      · simp [hik]
+    simp [this]
+
+theorem bit_getLsbD (a : Bool) (m : BitVec 16) (i : Nat) : (bit a m).getLsbD i = (a && m.getLsbD i) := by
+  cases a <;> simp [bit]
+
+theorem small_testBit (x i : Nat) (hx : x < 16) (hi : 4 ≤ i) : x.testBit i = false :=
+  Nat.testBit_lt_two_pow (Nat.lt_of_lt_of_le hx (by
+    have : (2 : Nat) ^ 4 ≤ 2 ^ i := Nat.pow_le_pow_right (by decide) hi
+    simpa using this))
+
+/-- bit `i` of the packed word -/
+theorem packBits_bit (h : MsgHdr) (i : Nat) :
+    (packBits h).getLsbD i =
+      ((decide (11 ≤ i) && decide (i < 16) && h.opcode.testBit (i - 11)) || (decide (i < 16) && (h.rcode % 16).testBit i) ||
+        (h.response && decide (15 = i)) || (h.authoritative && decide (10 = i)) || (h.truncated && decide (9 = i)) ||
+        (h.recursionDesired && decide (8 = i)) || (h.recursionAvailable && decide (7 = i)) || (h.zero && decide (6 = i)) ||
+        (h.authenticatedData && decide (5 = i)) || (h.checkingDisabled && decide (4 = i))) := by
+  have e15 : (0x8000 : BitVec 16) = BitVec.twoPow 16 15 := by decide
+  have e10 : (0x0400 : BitVec 16) = BitVec.twoPow 16 10 := by decide
+  have e9 : (0x0200 : BitVec 16) = BitVec.twoPow 16 9 := by decide
+  have e8 : (0x0100 : BitVec 16) = BitVec.twoPow 16 8 := by decide
+  have e7 : (0x0080 : BitVec 16) = BitVec.twoPow 16 7 := by decide
+  have e6 : (0x0040 : BitVec 16) = BitVec.twoPow 16 6 := by decide
+  have e5 : (0x0020 : BitVec 16) = BitVec.twoPow 16 5 := by decide
+  have e4 : (0x0010 : BitVec 16) = BitVec.twoPow 16 4 := by decide
+  unfold packBits
+  rw [e15, e10, e9, e8, e7, e6, e5, e4]
+  simp only [BitVec.getLsbD_or, bit_getLsbD, BitVec.getLsbD_twoPow, BitVec.getLsbD_shiftLeft, BitVec.getLsbD_ofNat]
+  by_cases h16 : i < 16
+  · by_cases h11 : 11 ≤ i
+    · have h1 : ¬ i < 11 := by omega
+      have h2 : i - 11 < 16 := by omega
+      simp [h16, h11, h1, h2]
+    · have : i < 11 := by omega
+      simp [h16, h11, this]
+  · simp [h16]
+
+/-- **the other direction**: header fields within their ranges survive packing and `setHdr` -/
+theorem unpackBits_packBits (h : MsgHdr) (ho : h.opcode < 16) (hr : h.rcode < 16) : unpackBits (packBits h) = h := by
+  have e15 : (0x8000 : BitVec 16) = BitVec.twoPow 16 15 := by decide
+  have e10 : (0x0400 : BitVec 16) = BitVec.twoPow 16 10 := by decide
+  have e9 : (0x0200 : BitVec 16) = BitVec.twoPow 16 9 := by decide
+  have e8 : (0x0100 : BitVec 16) = BitVec.twoPow 16 8 := by decide
+  have e7 : (0x0080 : BitVec 16) = BitVec.twoPow 16 7 := by decide
+  have e6 : (0x0040 : BitVec 16) = BitVec.twoPow 16 6 := by decide
+  have e5 : (0x0020 : BitVec 16) = BitVec.twoPow 16 5 := by decide
+  have e4 : (0x0010 : BitVec 16) = BitVec.twoPow 16 4 := by decide
+  have hrm : h.rcode % 16 = h.rcode := Nat.mod_eq_of_lt hr
+  have flag : ∀ k, 4 ≤ k → k < 16 → k ≠ 11 → k ≠ 12 → k ≠ 13 → k ≠ 14 →
+      (decide (11 ≤ k) && decide (k < 16) && h.opcode.testBit (k - 11)) = false ∧
+      (decide (k < 16) && (h.rcode % 16).testBit k) = false := by
+    intro k h4 h16 n11 n12 n13 n14
+    constructor
+    · by_cases h11 : 11 ≤ k
+      · have : k = 15 := by omega
+        subst this
+        simp [small_testBit h.opcode 4 ho (by omega)]
+      · simp [h11]
+    · rw [hrm, small_testBit h.rcode k hr h4]; simp
+  have opc : ((packBits h >>> 11) &&& 0xF).toNat = h.opcode := by
+    have : (packBits h >>> 11) &&& 0xF = BitVec.ofNat 16 h.opcode := by
+      apply BitVec.eq_of_getLsbD_eq
+      intro i hi
+      have e : (0xF : BitVec 16).getLsbD i = decide (i < 4) := by
+        have : i = 0 ∨ i = 1 ∨ i = 2 ∨ i = 3 ∨ 4 ≤ i := by omega
+        rcases this with rfl | rfl | rfl | rfl | h4
+        · decide
+        · decide
+        · decide
+        · decide
+        · have : (0xF : BitVec 16) = BitVec.ofNat 16 15 := rfl
+          rw [this, BitVec.getLsbD_ofNat, small_testBit 15 i (by decide) h4]; simp; omega
+      simp only [BitVec.getLsbD_and, BitVec.getLsbD_ushiftRight, packBits_bit, e, BitVec.getLsbD_ofNat]
+      by_cases h4 : i < 4
+      · have a1 : 11 ≤ 11 + i := by omega
+        have a2 : 11 + i < 16 := by omega
+        have a3 : 11 + i - 11 = i := by omega
+        have a4 : (h.rcode % 16).testBit (11 + i) = false := by rw [hrm]; exact small_testBit _ _ hr (by omega)
+        have n15 : ¬ 15 = 11 + i := by omega
+        have n10 : ¬ 10 = 11 + i := by omega
+        have n9 : ¬ 9 = 11 + i := by omega
+        have n8 : ¬ 8 = 11 + i := by omega
+        have n7 : ¬ 7 = 11 + i := by omega
+        have n6 : ¬ 6 = 11 + i := by omega
+        have n5 : ¬ 5 = 11 + i := by omega
+        have n4 : ¬ 4 = 11 + i := by omega
+        simp [a1, a2, a3, a4, n15, n10, n9, n8, n7, n6, n5, n4, h4, hi]
+      · have : h.opcode.testBit i = false := small_testBit _ _ ho (by omega)
+        simp [h4, this]
+    rw [this]
+    simp [BitVec.toNat_ofNat]; omega
+  have rcd : (packBits h &&& 0xF).toNat = h.rcode := by
+    have : packBits h &&& 0xF = BitVec.ofNat 16 h.rcode := by
+      apply BitVec.eq_of_getLsbD_eq
+      intro i hi
+      have e : (0xF : BitVec 16).getLsbD i = decide (i < 4) := by
+        have : i = 0 ∨ i = 1 ∨ i = 2 ∨ i = 3 ∨ 4 ≤ i := by omega
+        rcases this with rfl | rfl | rfl | rfl | h4
+        · decide
+        · decide
+        · decide
+        · decide
+        · have : (0xF : BitVec 16) = BitVec.ofNat 16 15 := rfl
+          rw [this, BitVec.getLsbD_ofNat, small_testBit 15 i (by decide) h4]; simp; omega
+      simp only [BitVec.getLsbD_and, packBits_bit, e, BitVec.getLsbD_ofNat]
+      by_cases h4 : i < 4
+      · have a1 : ¬ 11 ≤ i := by omega
+        have n15 : ¬ 15 = i := by omega
+        have n10 : ¬ 10 = i := by omega
+        have n9 : ¬ 9 = i := by omega
+        have n8 : ¬ 8 = i := by omega
+        have n7 : ¬ 7 = i := by omega
+        have n6 : ¬ 6 = i := by omega
+        have n5 : ¬ 5 = i := by omega
+        have n4 : ¬ 4 = i := by omega
+        simp [a1, hrm, n15, n10, n9, n8, n7, n6, n5, n4, h4, hi]
+      · have : h.rcode.testBit i = false := small_testBit _ _ hr (by omega)
+        simp [h4, this]
+    rw [this]
+    simp [BitVec.toNat_ofNat]; omega
+  unfold unpackBits
+  rw [e15, e10, e9, e8, e7, e6, e5, e4]
+  simp only [testBit_mask _ 15 (by omega), testBit_mask _ 10 (by omega), testBit_mask _ 9 (by omega), testBit_mask _ 8 (by omega),
+    testBit_mask _ 7 (by omega), testBit_mask _ 6 (by omega), testBit_mask _ 5 (by omega), testBit_mask _ 4 (by omega), opc, rcd,
+    packBits_bit]
+  obtain ⟨f15a, f15b⟩ := flag 15 (by omega) (by omega) (by omega) (by omega) (by omega) (by omega)
+  obtain ⟨f10a, f10b⟩ := flag 10 (by omega) (by omega) (by omega) (by omega) (by omega) (by omega)
+  obtain ⟨f9a, f9b⟩ := flag 9 (by omega) (by omega) (by omega) (by omega) (by omega) (by omega)
+  obtain ⟨f8a, f8b⟩ := flag 8 (by omega) (by omega) (by omega) (by omega) (by omega) (by omega)
+  obtain ⟨f7a, f7b⟩ := flag 7 (by omega) (by omega) (by omega) (by omega) (by omega) (by omega)
+  obtain ⟨f6a, f6b⟩ := flag 6 (by omega) (by omega) (by omega) (by omega) (by omega) (by omega)
+  obtain ⟨f5a, f5b⟩ := flag 5 (by omega) (by omega) (by omega) (by omega) (by omega) (by omega)
+  obtain ⟨f4a, f4b⟩ := flag 4 (by omega) (by omega) (by omega) (by omega) (by omega) (by omega)
+  rw [f15a, f15b, f10a, f10b, f9a, f9b, f8a, f8b, f7a, f7b, f6a, f6b, f5a, f5b, f4a, f4b]
+  cases h
+  simp
+
 end Dns.C01H
